@@ -3,7 +3,8 @@ LLVMCXX := $(shell llvm-config-14 --cxxflags)
 LIBS := /usr/lib/llvm-14/lib/libclang-cpp.so.14 /usr/lib/llvm-14/lib/libLLVM-14.so
 CXX := clang++
 
-all: build/irdump build/astdump
+TOOLS := build/irdump $(if $(wildcard tools/astdump/astdump.cc),build/astdump)
+all: $(TOOLS)
 
 build/irdump: tools/irdump/irdump.cc
 	@mkdir -p build
